@@ -278,6 +278,31 @@ func exec(line string) hx.Result {
 	return hx.Result{Out: "bad-op"}
 }
 
+// every constant a length is compared with, at c-1, c, c+1: payload 25 bytes, version 23, string 2048, hex 40 chars / 20 bytes
+func thresholdCorpus() []string {
+	r := hx.NewRand(4242)
+	a := r.Bytes(20)
+	var out []string
+	for _, n := range []int{18, 19, 20, 21, 22} { // 1+n+4 = 23..27 byte payloads
+		out = append(out, dLine(b58enc(payload(23, r.Bytes(n), true, r))))
+	}
+	for _, v := range []byte{0, 1, 22, 23, 24, 255} {
+		out = append(out, dLine(b58enc(payload(v, a, true, r))))
+	}
+	var ad common.Address
+	copy(ad[:], a)
+	s := ad.ToBase58()
+	for _, n := range []int{2047, 2048, 2049} {
+		out = append(out, dLine(strings.Repeat("1", n-len(s))+s), dLine(strings.Repeat("2", n)), dLine(s+strings.Repeat("1", n-len(s))))
+	}
+	h := ad.ToHexString()
+	for _, n := range []int{0, 1, 2, 38, 39, 40} {
+		out = append(out, "Y "+hx.Hex([]byte(h[:n])))
+	}
+	out = append(out, "Y "+hx.Hex([]byte(h+"0")), "Y "+hx.Hex([]byte(h+"00")), "Y "+hx.Hex([]byte(h+"000")))
+	return out
+}
+
 func main() {
 	zero := common.Address{}
 	z58 := zero.ToBase58()
@@ -289,14 +314,14 @@ func main() {
 			"changes, edits, truncation, extension. Non-trivial = distinct line; kinds = branch reached (ok / err kind)",
 		Gen:  gen,
 		Exec: exec,
-		Corpus: []string{
+		Corpus: append(thresholdCorpus(), []string{
 			"D - -", dLine(z58), dLine("1" + z58), dLine(z58 + "1"), dLine(z58[1:]), dLine("1"), dLine("11"), dLine("0"), dLine("A"),
 			dLine(strings.Repeat("1", 2048)), dLine(strings.Repeat("1", 2049)), dLine(strings.Repeat("z", 2048)), dLine(strings.Repeat("z", 2049)),
 			dLine(strings.Repeat("1", 2048-len(z58)) + z58), dLine(strings.Repeat("1", 2049-len(z58)) + z58),
 			"E " + hx.Hex(zero[:]) + " " + hx.Hex(chk4(append([]byte{23}, zero[:]...))),
 			"X " + hx.Hex(zero[:]), "Y -", "Y " + hx.Hex([]byte("0")), "Y " + hx.Hex([]byte(strings.Repeat("AB", 20))),
 			"Y " + hx.Hex([]byte(strings.Repeat("ab", 21))), "Y " + hx.Hex([]byte(strings.Repeat("ab", 19))), "Y " + hx.Hex([]byte(strings.Repeat("0x", 20))),
-		},
+		}...),
 		N: map[string]int{"quick": 20000, "thorough": 400000},
 	})
 }
